@@ -20,8 +20,11 @@ requests: the client must not ask).  `pre = []` is the single page; pages may be
 import Ldap3V.Lemmas.StreamC16
 import Ldap3V.Lemmas.StreamBehindEo
 import Ldap3V.Lemmas.StreamPagedFinish
+import Ldap3V.Spec.PagedWire
+import Ldap3V.Props.C02
+import Ldap3V.Props.C19
 namespace Ldap3V.Stream
-open Spec
+open _root_.Ldap3V.Stream.Spec
 
 /-- the page list of a paged search -/
 def pagesOf (pre : List PageD) (last : PageD) (rest : List Page) : List Page :=
@@ -270,5 +273,91 @@ NOT proved (stated for the record): for the two chains with EntriesOnly the clos
 (`Cursor.run_nexts_done`); the final result there is `last.res` without its first paging control and
 with `refs := last.res.refs ++ refUris (itemsOf pre last)`.
 -/
+
+/-! ### down to the bytes (C16 ∘ C02 ∘ C19)
+
+`C16_requests` says which searches the adapter hands to `op_call`, in the stream model's terms: query,
+options and the caller's other controls are opaque tokens there.  `Interp` (Spec/PagedWire.lean) says what
+the tokens stand for; `I.bytes id r` are the bytes `Encoder::encode` writes for the request `r` under
+message ID `id` (Model/Requests.lean, Model/Envelope.lean, Model/Codecs.lean `encPagedResults`). -/
+
+/-- Every request of a paged search read to its end, AS BYTES: request number `k` (0 = the first), written
+under any message ID, is parsed back by the library-independent reader (`Ldap3V.Spec.decodeRequest`, the RFC
+4511 ASN.1) as a SearchRequest with exactly the caller's base, scope, filter and attributes, the search
+options in force at `start` (or the defaults), and as controls the caller's other controls in their order
+followed by ONE paging control — OID 1.2.840.113556.1.4.319, not critical — whose value the RFC 2696 reader
+decodes to the requested size and cookie number `k` of `[] :: cookies of the pages before the last`: empty
+on the first request, the cookie the server last returned on every follow-up.
+
+Side conditions are those of C02 / C19 (numbers in the range of their Rust types, a filter lber's parser
+can read back, sizes below 2^64) and `0 ≤ size` (RFC 2696: `INTEGER (0..maxInt)`; a negative size is
+written as a negative INTEGER, `C19_pagedResults_req_negative`). -/
+theorem C16_request_bytes (I : Interp) (size : Int) (h : Handle) (q : Query) (pre : List PageD) (last : PageD)
+    (rest : List Page) (hh : (h.ctrls.getD []).any RCtl.isPaged = false) (hq : q.filterOk = true)
+    (hpre : ∀ p ∈ pre, p.more) (hlast : last.last) (n k : Nat) (r : Req)
+    (hr : (exec (init [pr size] h (pagesOf pre last rest))
+        (.start q :: List.replicate ((itemsOf pre last).length + 1 + n) .next)).s.reqs[k]? = some r)
+    (id : Nat) (hid : 1 ≤ id ∧ id < 2147483648)
+    (ho : Ldap3V.Spec.I32 (I.optsOf h.opts).sizeLimit ∧ Ldap3V.Spec.I32 (I.optsOf h.opts).timeLimit)
+    (hf : Ldap3V.Spec.lowTags (I.filter q.tok) = true ∧ (I.filter q.tok).depth ≤ 62)
+    (hs : 0 ≤ size ∧ size ≤ 2147483647)
+    (hl : (I.bytes id r).length < 18446744073709551616) :
+    ∃ ck t, ([] :: pre.map PageD.cookie)[k]? = some ck ∧
+      parseTag (I.bytes id r) = .ok t [] ∧
+      Ldap3V.Spec.decodeRequest t = some (id,
+        .search (I.base q.tok) (I.scope q.tok) (I.optsOf h.opts).deref (I.optsOf h.opts).sizeLimit
+          (I.optsOf h.opts).timeLimit (I.optsOf h.opts).typesOnly (I.filter q.tok) (I.attrs q.tok),
+        some ((othersOf h).map I.rctl ++ [Codecs.encPagedResults ⟨size, ck⟩])) ∧
+      (Codecs.encPagedResults ⟨size, ck⟩).ctype = Codecs.Spec.rfcPagedResults ∧
+      (Codecs.encPagedResults ⟨size, ck⟩).crit = false ∧
+      (Codecs.valLen (Codecs.encPagedResults ⟨size, ck⟩).val < 18446744073709551616 →
+        Codecs.Spec.DecodesTo Codecs.Spec.pagedOfTlv (Codecs.encPagedResults ⟨size, ck⟩).val ⟨size, ck⟩) := by
+  rw [C16_requests size h q pre last rest hh hq hpre hlast n] at hr
+  have e : pagedReq size (othersOf h) h.opts h.tmo q [] true ::
+        pre.map (fun p => pagedReq size (othersOf h) h.opts h.tmo q p.cookie true) =
+      ([] :: pre.map PageD.cookie).map (fun ck => pagedReq size (othersOf h) h.opts h.tmo q ck true) := by
+    simp [List.map_map, Function.comp_def]
+  rw [e, List.getElem?_map] at hr
+  cases hck : ([] :: pre.map PageD.cookie)[k]? with
+  | none => rw [hck] at hr; cases hr
+  | some ck =>
+    rw [hck] at hr
+    simp only [Option.map_some, Option.some.injEq] at hr
+    subst hr
+    have hb : I.bytes id (pagedReq size (othersOf h) h.opts h.tmo q ck true) =
+        encodeMsg (id : Int) (build (.search (I.base q.tok) (I.scope q.tok) (I.optsOf h.opts).deref
+          (I.optsOf h.opts).sizeLimit (I.optsOf h.opts).timeLimit (I.optsOf h.opts).typesOnly (I.filter q.tok)
+          (I.attrs q.tok))) (some ((othersOf h).map I.rctl ++ [Codecs.encPagedResults ⟨size, ck⟩])) := by
+      simp [Interp.bytes, Interp.request, Interp.ctrls, pagedReq, Interp.rctl]
+    rw [hb] at hl ⊢
+    have hw : Ldap3V.Spec.WFReq (.search (I.base q.tok) (I.scope q.tok) (I.optsOf h.opts).deref
+        (I.optsOf h.opts).sizeLimit (I.optsOf h.opts).timeLimit (I.optsOf h.opts).typesOnly (I.filter q.tok)
+        (I.attrs q.tok)) := ⟨rfl, ho⟩
+    obtain ⟨t, ht, hd⟩ := C02_roundtrip_bytes id _ _ hid hw hf hl
+    refine ⟨ck, t, rfl, ht, hd, ?_, rfl, ?_⟩
+    · exact C19_oids.1
+    · intro hv
+      exact (C19_pagedResults_req ⟨size, ck⟩ hs.1 hs.2 hv).2.2
+
+/-- an interpretation for the examples: base `o=x`, whole subtree, filter `(cn=*)`, attribute `*`; the other
+control is ManageDsaIT-like (OID `1`, critical, no value); options: deref always, typesOnly, limits 5 s / 7 -/
+def C16_demoI : Interp :=
+  { base := fun _ => [0x6f, 0x3d, 0x78], scope := fun _ => .subtree, filter := fun _ => .prim 2 7 [0x63, 0x6e],
+    attrs := fun _ => [[0x2a]], ctl := fun _ => ⟨[0x31], true, none⟩, opts := fun _ => ⟨.always, true, 5, 7⟩ }
+
+/-- the hypotheses of `C16_request_bytes` are met by the two-page search of the example above (`k = 1`: the
+follow-up), and its conclusion evaluated: the bytes of the follow-up under message ID 2 read back as the
+same search with the other control first and the paging control carrying size 2 and the cookie `07` -/
+example :
+    let r : Req := ⟨some [.other 7, .paged 2 [7]], some 3, some 1000, ⟨1, true⟩, true⟩
+    (exec (init [pr 2] { ctrls := some [.other 7], opts := some 3, tmo := some 1000 } (pagesOf
+      [⟨[⟨.entry, 1, none, []⟩], ⟨0, [], [⟨true, some [7], 0⟩], .server 3⟩, []⟩]
+      ⟨[⟨.entry, 5, none, []⟩], ⟨0, [], [⟨true, some [], 0⟩], .server 6⟩, []⟩ []))
+      [.start ⟨1, true⟩, .next, .next, .next]).s.reqs[1]? = some r ∧
+    (C16_demoI.bytes 2 r).length = 83 ∧
+    (match parseTag (C16_demoI.bytes 2 r) with
+      | .ok t [] => (Ldap3V.Spec.decodeRequest t).map (fun x => (x.1, x.2.2))
+      | _ => none) = some (2, some [⟨[0x31], true, none⟩, Codecs.encPagedResults ⟨2, [7]⟩]) ∧
+    Codecs.Spec.decPaged (Codecs.encPagedResults ⟨2, [7]⟩).val = some ⟨2, [7]⟩ := by decide +kernel
 
 end Ldap3V.Stream
